@@ -726,6 +726,10 @@ class C16(Driver):
                 msg = " ".join(r_[1][1:])
                 if not (t["x"] and expect != 0 and msg.strip('"').endswith("exit code %d" % expect)):
                     V("C16/child/os-execute-raised", "expected status %d (x=%s), got error %s" % (expect, t["x"], msg[:80]))
+        for e in res.events:
+            if e.kind == "!badclose":
+                V("C16/descriptor/closed-a-descriptor-that-is-not-open", "close(%s) failed with EBADF: a double close" % e.payload)
+                break
         seen, out = set(), []
         for v in vs:
             if v.sig not in seen:
